@@ -156,6 +156,9 @@ def kind_from_real(stmt):
     if isinstance(stmt, L.AssignFunctionCall):
         return ["call", list(stmt.assignees), stmt.function_id, [from_pym(e) for e in stmt.parameters],
                 [[n, from_pym(e)] for n, e in stmt.kw_parameters.items()]]
+    if isinstance(stmt, L.AssignImplicit):
+        return ["implicit", list(stmt.assignees), list(stmt.solve_variables), [from_pym(e) for e in stmt.expressions],
+                [[n, from_pym(e)] for n, e in stmt.other_params.items()], stmt.solver_id]
     if isinstance(stmt, L.YieldState):
         return ["yield", stmt.component_id, stmt.time_id, from_pym(stmt.time), from_pym(stmt.expression)]
     if isinstance(stmt, L.FailStep):
@@ -300,6 +303,10 @@ def kind_to_real(k, cond=None, sid=None, deps=()):
         return L.AssignFunctionCall(assignees=tuple(k[1]), function_id=k[2],
                                     parameters=tuple(to_pym(e) for e in k[3]),
                                     kw_parameters={n: to_pym(e) for n, e in k[4]}, **kw)
+    if t == "implicit":
+        return L.AssignImplicit(assignees=tuple(k[1]), solve_variables=tuple(k[2]),
+                                expressions=tuple(to_pym(e) for e in k[3]),
+                                other_params={n: to_pym(e) for n, e in k[4]}, solver_id=k[5], **kw)
     if t == "yield":
         return L.YieldState(expression=to_pym(k[4]), component_id=k[1], time=to_pym(k[3]), time_id=k[2], **kw)
     if t == "fail":
@@ -311,6 +318,41 @@ def kind_to_real(k, cond=None, sid=None, deps=()):
     if t == "nop":
         return L.Nop(**kw)
     raise ValueError(k)
+
+
+# ------------------------------------------------------------------ reference executor for AssignImplicit
+
+class _Overlay(dict):
+    """the unknowns of an implicit solve bound on top of the interpreter's variable store"""
+
+    def __init__(self, bound, base):
+        super().__init__(bound)
+        self.base = base
+
+    def __getitem__(self, k):
+        return dict.__getitem__(self, k) if dict.__contains__(self, k) else self.base[k]
+
+    def __contains__(self, k):
+        return dict.__contains__(self, k) or k in self.base
+
+
+def implicit_mixin(base_cls):
+    """NumpyInterpreter leaves exec_AssignImplicit to the user.  This reference executor does what the
+    documentation of AssignImplicit says a solver is given: the values of other_params (evaluated in the
+    variable store: a name equal to an unknown there means the stored variable), and the expressions, in
+    which the solve_variables are unknowns of the solver (bound to the starting guess, never looked up in
+    the store) and every other name is a stored variable.  Result k: guess_k - expression_k(guess) (one
+    fixed-point sweep; any deterministic function of what a solver may read serves the property)."""
+    class WithImplicit(base_cls):
+        def exec_AssignImplicit(self, stmt):
+            from dagrt.expression import EvaluationMapper
+            params = {n: self.eval_mapper(e) for n, e in stmt.other_params.items()}
+            guess = params.get("guess", 0)
+            start = {v: guess for v in stmt.solve_variables}
+            ev = EvaluationMapper(_Overlay(start, self.context), self.functions)
+            for name, v, e in zip(stmt.assignees, stmt.solve_variables, stmt.expressions):
+                self.context[name] = start[v] - ev(e)
+    return WithImplicit
 
 
 # ------------------------------------------------------------------ test oracle (mirrors TestOracle.v)
